@@ -101,6 +101,12 @@ func c12Case(env *Env, tape *sim.Tape) *CaseOut {
 	emptyChunks := tape.Draw(4) == 3
 
 	data := doc.Data
+	sized := tape.Draw(16) == 15
+	if sized && partMode == 0 {
+		data = sizedDoc(tape, doc.MT)
+		doc.Name = fmt.Sprintf("sized(%s,%d)", doc.MT, len(data))
+	}
+	repeat := tape.Draw(6) == 5 // use the same registry (and minifier objects) a second time
 	n := len(data)
 	var chunks []int
 	if partMode == 1 {
@@ -185,11 +191,28 @@ func c12Case(env *Env, tape *sim.Tape) *CaseOut {
 		}
 	}
 
-	ref := plainReference(expectMT, data, fmt.Sprint(di))
+	refKey := fmt.Sprint(di)
+	if sized && partMode == 0 {
+		refKey = fmt.Sprintf("sized:%s:%d", doc.MT, len(data))
+	}
+	ref := plainReference(expectMT, data, refKey)
 	m := NewRegistry(DefaultOptions())
 	var sv *sim.Violation
 	var st RunStats
 	scheduled := !(entry == EBytes || entry == EString)
+	if repeat {
+		// first use of the registry: the same call on the same data with fresh doubles; its
+		// result is judged by the same oracle through the second use below
+		first := *op
+		first.W, first.R = sim.NewSimWriter(nil), sim.NewSimReader(nil, data)
+		first.R.Chunks, first.R.EOFWithData = op.R.Chunks, op.R.EOFWithData
+		if scheduled {
+			RunTasks(env.T, sim.ReplayTape(nil), m, [][]*Op{{&first}}, 9, 1<<20, false)
+		} else {
+			first.Exec(nil, m)
+		}
+		out.stat("probe_second_use_of_registry", 1)
+	}
 	if scheduled {
 		budget := 8*(ref.W+len(chunks)+len(op.ReadBufs)+len(ref.Out)/8+n/8) + 256
 		sv, st = RunTasks(env.T, tape, m, [][]*Op{{op}}, stick, budget, false)
@@ -207,6 +230,9 @@ func c12Case(env *Env, tape *sim.Tape) *CaseOut {
 	out.stat("entry_"+entryNames[entry], 1)
 	if len(chunks) > 1 {
 		out.stat("multi_chunk_cases", 1)
+	}
+	if sized && partMode == 0 {
+		out.stat("probe_sized_document_near_buffer_boundary", 1)
 	}
 	if emptyChunks && len(chunks) > 0 {
 		out.stat("probe_empty_chunks", 1)
